@@ -1919,7 +1919,8 @@ def mon_c16(w, F, vd):
                 k1, f1, _ = R.ref_decode(frames[0], R.B2C, ver)
             except R.Malformed:
                 k1 = None
-            if k1 in ("PUBACK", "PUBREC", "PUBCOMP", "SUBACK", "UNSUBACK") and f1["id"] not in outst.get(k1, []):
+            if k1 in ("PUBACK", "PUBREC", "PUBCOMP", "SUBACK", "UNSUBACK") and f1["id"] not in outst.get(k1, []) \
+                    and not _client_awaits(F, w.conns[c].a, k1, f1["id"], e.i):
                 nontriv = True
                 vd.label("unasked_ack:" + k1)
                 for x in evs:
@@ -1972,6 +1973,27 @@ def mon_c16(w, F, vd):
                 if ri.fire is None or ri.fire[0] > _end_of_ctx(w, e):
                     vd.bad("C16.left_hanging", "%s #%d still pending after the connection was lost" % (ri.kind, ri.rid))
     vd.nontrivial = nontriv
+
+
+def _client_awaits(F, a, kind, mid, ei):
+    """does the client itself have an exchange open that this acknowledgement answers?  (The broker model's
+    books are wrong once a raw fragment has swallowed one of its acknowledgements.)"""
+    for ri in F.info.values():
+        if ri.a != a or ri.msgid != mid or not ri.tx or ri.tx[0].ei > ei:
+            continue
+        if ri.fire is not None and ri.fire[0] < ei:
+            continue
+        if kind == "PUBACK" and ri.kind == "publish" and ri.qos == 1:
+            return True
+        if kind == "PUBREC" and ri.kind == "publish" and ri.qos == 2:
+            return True
+        if kind == "PUBCOMP" and ri.kind == "publish" and ri.qos == 2 and any(t.ei < ei for t in ri.rel):
+            return True
+        if kind == "SUBACK" and ri.kind == "subscribe":
+            return True
+        if kind == "UNSUBACK" and ri.kind == "unsubscribe":
+            return True
+    return False
 
 
 def _end_of_ctx(w, e):
